@@ -240,10 +240,22 @@ pub fn cfg() -> GenCfg {
 pub fn run(ctx: &Ctx) {
     let cases = ctx.tier.pick(24_000, 1_200_000);
     ctx.run_prop("lib", cases, 16, || workspace(cfg()).prop_map(|ws| Case { ws }), |c, info| check_case(&c.ws, info));
+    ctx.run_prop_shrink("lsp", ctx.tier.pick(120, 3000), 8, 150, || workspace(lsp_cfg()).prop_map(|ws| Case { ws }), |c, info| {
+        crate::props::lsp_tiers::c01_definition(ctx, &c.ws, info)
+    });
 }
 
-pub fn judge(_ctx: &Ctx, sub: &str, case: &Value) -> Option<Outcome> {
+pub fn lsp_cfg() -> GenCfg {
+    GenCfg { names: 3, max_depth: 3, max_items: 3, allow_dups_in_file: true, ..GenCfg::default() }
+}
+
+pub fn judge(ctx: &Ctx, sub: &str, case: &Value) -> Option<Outcome> {
     match sub {
+        "lsp" => {
+            let c: Case = from_case(case)?;
+            let mut info = CaseInfo::default();
+            Some(crate::props::lsp_tiers::c01_definition(ctx, &c.ws, &mut info))
+        }
         "lib" => {
             let c: Case = from_case(case)?;
             let mut info = CaseInfo::default();
